@@ -324,12 +324,19 @@ func aggPackages(tier string) []agg {
 			out = append(out, agg{Name: fmt.Sprintf("g%03d_conv%s_%s", id, pat, lay), Files: files, Good: good, Bad: bad})
 		}
 	}
+	// one bad spec in a const / var group: every spec is a declaration of its own
+	for _, kw := range []string{"const", "var"} {
+		id++
+		out = append(out, agg{Name: fmt.Sprintf("g%03d_%sgroup_one", id, kw), Files: map[string]string{"a.go": "package q\n\n" + kw + " (\n\tGood0 uint64 = 1\n\tBad0  int8   = 3\n\tGood1 uint64 = 2\n\tBad1         = -1\n)\n\nfunc Good2() uint64 {\n\treturn Good0 + Good1\n}\n"}, Good: []string{"Good0", "Good1", "Good2"}, Bad: []string{"Bad0", "Bad1"}})
+	}
 	return out
 }
 
 var catLine = regexp.MustCompile(`(?m)^(?:conversion failed: )?\[([a-z()\-]+)\]: `)
 var srcLine = regexp.MustCompile(`(?m)^\s+src: (\S+?):(\d+):\d+`)
 var nErrors = regexp.MustCompile(`(?m)^(\d+) errors$`)
+
+var specLine = regexp.MustCompile(`^\t((?:Good|Bad)\d+)\s`)
 
 func funcRanges(src string) map[string][2]int {
 	out := map[string][2]int{}
@@ -342,6 +349,9 @@ func funcRanges(src string) map[string][2]int {
 		if l == "}" && cur != "" {
 			out[cur] = [2]int{start, i + 1}
 			cur = ""
+		}
+		if m := specLine.FindStringSubmatch(l); m != nil && cur == "" {
+			out[m[1]] = [2]int{i + 1, i + 1} // a spec of a const / var group
 		}
 	}
 	return out
@@ -501,12 +511,12 @@ func part2(tier, goose, work string, acc *ev.Acc, only string) {
 		"three_cycle":               "package q\n\nfunc F1(n uint64) uint64 {\n\tif n == 0 {\n\t\treturn 1\n\t}\n\treturn F2(n - 1)\n}\n\nfunc F2(n uint64) uint64 {\n\tif n == 0 {\n\t\treturn 2\n\t}\n\treturn F3(n - 1)\n}\n\nfunc F3(n uint64) uint64 {\n\tif n == 0 {\n\t\treturn 3\n\t}\n\treturn F1(n - 1)\n}\n",
 		"same_bad_two_files":        "",
 		// values whose named type lives in the universe scope (error) or in no named struct; a body-less function (stub.s makes it legal Go)
-		"error_value_method":   "package q\n\nimport \"errors\"\n\nfunc Ok() uint64 {\n\treturn 1\n}\n\nfunc Msg() string {\n\treturn errors.New(\"boom\").Error()\n}\n",
-		"error_pointer":        "package q\n\nimport \"errors\"\n\nfunc Ok() uint64 {\n\treturn 1\n}\n\nfunc P() uint64 {\n\te := errors.New(\"boom\")\n\tp := &e\n\tif *p == nil {\n\t\treturn 0\n\t}\n\treturn 1\n}\n",
-		"bodyless_func":        "package q\n\n// implemented in assembly\nfunc External(x uint64) uint64\n\nfunc Ok() uint64 {\n\treturn 1\n}\n",
-		"anon_struct_func":     "package q\n\ntype T struct {\n\tin struct {\n\t\tf func() uint64\n\t}\n}\n\nfunc Use(t *T) uint64 {\n\treturn t.in.f()\n}\n",
-		"generic_append":       "package q\n\nfunc Push[S ~[]uint64](s S) S {\n\treturn append(s, 1)\n}\n",
-		"local_util_dprintf":   "",
+		"error_value_method": "package q\n\nimport \"errors\"\n\nfunc Ok() uint64 {\n\treturn 1\n}\n\nfunc Msg() string {\n\treturn errors.New(\"boom\").Error()\n}\n",
+		"error_pointer":      "package q\n\nimport \"errors\"\n\nfunc Ok() uint64 {\n\treturn 1\n}\n\nfunc P() uint64 {\n\te := errors.New(\"boom\")\n\tp := &e\n\tif *p == nil {\n\t\treturn 0\n\t}\n\treturn 1\n}\n",
+		"bodyless_func":      "package q\n\n// implemented in assembly\nfunc External(x uint64) uint64\n\nfunc Ok() uint64 {\n\treturn 1\n}\n",
+		"anon_struct_func":   "package q\n\ntype T struct {\n\tin struct {\n\t\tf func() uint64\n\t}\n}\n\nfunc Use(t *T) uint64 {\n\treturn t.in.f()\n}\n",
+		"generic_append":     "package q\n\nfunc Push[S ~[]uint64](s S) S {\n\treturn append(s, 1)\n}\n",
+		"local_util_dprintf": "",
 	}
 	var shapeNames []string
 	for n := range shapes {
